@@ -22,11 +22,14 @@ TRUSTED = c07.TRUSTED + ['numpy.linalg.solve assumed backward stable on non-sing
 RES = 1e-3
 
 
-def compare(case, w, peak, impl, ref, cond, what):
-    """impl numbers vs reference dict (phi, v, i as complex/Fraction-based), tolerance by conditioning"""
+def compare(case, w, peak, impl, ref, cond, what, scale_ref=None):
+    """impl numbers vs reference dict (phi, v, i as complex/Fraction-based), tolerance by conditioning.  scale_ref: the solution whose
+    magnitudes set the scales (DC: the COMPLEX solution whose real parts are reported — with complex impedances in a DC analysis the real
+    part can be many decades below the magnitude the solver worked with)"""
     bad = []
-    sv = max([abs(complex(x)) for x in ref['phi'].values()] + [1e-300])
-    si = max([abs(complex(x)) for x in ref['i'].values()] + [0.0])
+    sr = scale_ref or ref
+    sv = max([abs(complex(x)) for x in sr['phi'].values()] + [1e-300])
+    si = max([abs(complex(x)) for x in sr['i'].values()] + [0.0])
     ymax = 1.0
     for b in ref['branches']:
         form, p, s, _ = ref['laws'][b['id']]
@@ -145,7 +148,7 @@ def examine(ctx, jobs):
                             'v': {i: complex(x).real for i, x in ref['v'].items()},
                             'i': {i: complex(x).real for i, x in ref['i'].items()},
                             'j': ref['j'], 'laws': ref['laws'], 'branches': ref['branches']}
-                    bad += compare(case, 0.0, True, dci, ref2, cond, 'C02:dc')
+                    bad += compare(case, 0.0, True, dci, ref2, cond, 'C02:dc', scale_ref=ref)
                     for i in impl['v']:
                         if abs(impl['p'][i] - impl['v'][i] * impl['i'][i]) > 1e-9 * max(1.0, abs(impl['p'][i])):
                             bad.append(('C02:dc-power-not-v-times-i', f'{i!r}'))
